@@ -533,7 +533,7 @@ func runEntry(cfg Config, prog *symex.Program, e entryInfo, findings []Finding) 
 	}
 	timeout := 20000
 	maxPaths := 20000
-	budget := 4 * time.Minute
+	budget := 8 * time.Minute // per entry; a loaded machine (parallel checks) needs the margin
 	if cfg.Tier == "thorough" {
 		timeout = 120000
 		maxPaths = 100000
